@@ -33,37 +33,78 @@ theorem readUInt_num (k nib : Nat) (hk : k ≤ 8) (hn : nib < 16) (bs rest : Lis
     simp [isNumTid]; omega
   simp [readUIntS, rts_num k nib hk hn bs rest hl, this]
 
-/-- shape of what `write_uint` emits for `v < 2^60`: first byte `0x30 + 16k + nibble`, then `k` bytes
+/-- the eight length bytes of the 0xE0 form, most significant first -/
+def lenBytes (v : Nat) : List Nat :=
+  [v / 72057594037927936 % 256, v / 281474976710656 % 256, v / 1099511627776 % 256, v / 4294967296 % 256,
+   v / 16777216 % 256, v / 65536 % 256, v / 256 % 256, v % 256]
+
+/-- no overflow in `(a << 8) | b` while `a` is below 2^56 -/
+theorem step64_small (a b : Nat) (ha : a < 2 ^ 56) : step64 a b = a * 256 + b := by
+  unfold step64 two64
+  rw [Nat.mod_eq_of_lt (by omega)]
+
+theorem lenBytes_val (v : Nat) (hv : v < 2 ^ 64) : (lenBytes v).foldl step64 0 = v := by
+  simp only [lenBytes, List.foldl_cons, List.foldl_nil]
+  have h0 : step64 (0) (v / 72057594037927936 % 256) = v / 72057594037927936 % 256 := by
+    rw [step64_small _ _ (by omega)]; omega
+  rw [h0]
+  have h1 : step64 (v / 72057594037927936 % 256) (v / 281474976710656 % 256) = v / 281474976710656 % 65536 := by
+    rw [step64_small _ _ (by omega)]; omega
+  rw [h1]
+  have h2 : step64 (v / 281474976710656 % 65536) (v / 1099511627776 % 256) = v / 1099511627776 % 16777216 := by
+    rw [step64_small _ _ (by omega)]; omega
+  rw [h2]
+  have h3 : step64 (v / 1099511627776 % 16777216) (v / 4294967296 % 256) = v / 4294967296 % 4294967296 := by
+    rw [step64_small _ _ (by omega)]; omega
+  rw [h3]
+  have h4 : step64 (v / 4294967296 % 4294967296) (v / 16777216 % 256) = v / 16777216 % 1099511627776 := by
+    rw [step64_small _ _ (by omega)]; omega
+  rw [h4]
+  have h5 : step64 (v / 16777216 % 1099511627776) (v / 65536 % 256) = v / 65536 % 281474976710656 := by
+    rw [step64_small _ _ (by omega)]; omega
+  rw [h5]
+  have h6 : step64 (v / 65536 % 281474976710656) (v / 256 % 256) = v / 256 % 72057594037927936 := by
+    rw [step64_small _ _ (by omega)]; omega
+  rw [h6]
+  have h7 : step64 (v / 256 % 72057594037927936) (v % 256) = v := by
+    rw [step64_small _ _ (by omega)]; omega
+  rw [h7]
+
+/-- shape of what `write_uint` emits for `v < 2^64`: first byte `0x30 + 16k + nibble`, then `k` bytes
 whose big-endian value (with the nibble on top) is `v` -/
-theorem uint_shape (v : Nat) (hv : v < 2 ^ 60) :
+theorem uint_shape (v : Nat) (hv : v < 2 ^ 64) :
     ∃ k nib bs, (uintOp v).bytes = (0x30 + 16 * k + nib) :: bs ∧ k ≤ 8 ∧ nib < 16 ∧ bs.length = k ∧
       bs.foldl step64 nib = v := by
   unfold uintOp
   split
-  · exact ⟨0, v, [], by simp [Op.bytes, tvBytes, tvTail]; omega, by omega, by omega, rfl, rfl⟩
+  · exact ⟨0, v, [], by simp [Op.bytes, tvBytes, tvTail, tvNibble]; omega, by omega, by omega, rfl, rfl⟩
   split
-  · refine ⟨1, v / 256 % 16, [v % 256], by simp [Op.bytes, tvBytes, tvTail], by omega, by omega, rfl, ?_⟩
+  · refine ⟨1, v / 256 % 16, [v % 256], by simp [Op.bytes, tvBytes, tvTail, tvNibble], by omega, by omega, rfl, ?_⟩
     simp [step64, two64]; omega
   split
-  · refine ⟨2, v / 65536 % 16, [v / 256 % 256, v % 256], by simp [Op.bytes, tvBytes, tvTail], by omega, by omega, rfl, ?_⟩
+  · refine ⟨2, v / 65536 % 16, [v / 256 % 256, v % 256], by simp [Op.bytes, tvBytes, tvTail, tvNibble], by omega, by omega, rfl, ?_⟩
     simp [step64, two64]; omega
   split
-  · refine ⟨3, v / 16777216 % 16, [v / 65536 % 256, v / 256 % 256, v % 256], by simp [Op.bytes, tvBytes, tvTail], by omega, by omega, rfl, ?_⟩
+  · refine ⟨3, v / 16777216 % 16, [v / 65536 % 256, v / 256 % 256, v % 256], by simp [Op.bytes, tvBytes, tvTail, tvNibble], by omega, by omega, rfl, ?_⟩
     simp [step64, two64]; omega
   split
-  · refine ⟨4, v / 4294967296 % 16, [v / 16777216 % 256, v / 65536 % 256, v / 256 % 256, v % 256], by simp [Op.bytes, tvBytes, tvTail], by omega, by omega, rfl, ?_⟩
+  · refine ⟨4, v / 4294967296 % 16, [v / 16777216 % 256, v / 65536 % 256, v / 256 % 256, v % 256], by simp [Op.bytes, tvBytes, tvTail, tvNibble], by omega, by omega, rfl, ?_⟩
     simp [step64, two64]; omega
   split
-  · refine ⟨5, v / 1099511627776 % 16, [v / 4294967296 % 256, v / 16777216 % 256, v / 65536 % 256, v / 256 % 256, v % 256], by simp [Op.bytes, tvBytes, tvTail], by omega, by omega, rfl, ?_⟩
+  · refine ⟨5, v / 1099511627776 % 16, [v / 4294967296 % 256, v / 16777216 % 256, v / 65536 % 256, v / 256 % 256, v % 256], by simp [Op.bytes, tvBytes, tvTail, tvNibble], by omega, by omega, rfl, ?_⟩
     simp [step64, two64]; omega
   split
-  · refine ⟨6, v / 281474976710656 % 16, [v / 1099511627776 % 256, v / 4294967296 % 256, v / 16777216 % 256, v / 65536 % 256, v / 256 % 256, v % 256], by simp [Op.bytes, tvBytes, tvTail], by omega, by omega, rfl, ?_⟩
+  · refine ⟨6, v / 281474976710656 % 16, [v / 1099511627776 % 256, v / 4294967296 % 256, v / 16777216 % 256, v / 65536 % 256, v / 256 % 256, v % 256], by simp [Op.bytes, tvBytes, tvTail, tvNibble], by omega, by omega, rfl, ?_⟩
     simp [step64, two64]; omega
-  · refine ⟨7, v / 72057594037927936 % 16, [v / 281474976710656 % 256, v / 1099511627776 % 256, v / 4294967296 % 256, v / 16777216 % 256, v / 65536 % 256, v / 256 % 256, v % 256], by simp [Op.bytes, tvBytes, tvTail], by omega, by omega, rfl, ?_⟩
+  split
+  · refine ⟨7, v / 72057594037927936 % 16, [v / 281474976710656 % 256, v / 1099511627776 % 256, v / 4294967296 % 256, v / 16777216 % 256, v / 65536 % 256, v / 256 % 256, v % 256], by simp [Op.bytes, tvBytes, tvTail, tvNibble], by omega, by omega, rfl, ?_⟩
     simp [step64, two64]; omega
 
-/-- `read_uint` on the bytes of `write_uint(v)`, `v < 2^60`, followed by anything -/
-theorem readUInt_roundtrip (v : Nat) (hv : v < 2 ^ 60) (rest : List Nat) (t n : Nat) (p : Option Site) :
+  · refine ⟨8, 0, [v / 72057594037927936 % 256, v / 281474976710656 % 256, v / 1099511627776 % 256, v / 4294967296 % 256, v / 16777216 % 256, v / 65536 % 256, v / 256 % 256, v % 256], by simp [Op.bytes, tvBytes, tvTail, tvNibble], by omega, by omega, rfl, ?_⟩
+    exact lenBytes_val v hv
+
+/-- `read_uint` on the bytes of `write_uint(v)`, every `u64`, followed by anything -/
+theorem readUInt_roundtrip (v : Nat) (hv : v < 2 ^ 64) (rest : List Nat) (t n : Nat) (p : Option Site) :
     ∃ t', readUIntS ⟨(uintOp v).bytes ++ rest, true, t, n, p⟩ = (v, ⟨rest, true, t', v, p⟩) := by
   obtain ⟨k, nib, bs, hb, hk, hn, hl, hf⟩ := uint_shape v hv
   refine ⟨0x30 + 16 * k, ?_⟩
@@ -73,14 +114,19 @@ theorem readUInt_roundtrip (v : Nat) (hv : v < 2 ^ 60) (rest : List Nat) (t n : 
 
 theorem strBytes_short (s : Str) (h : s.length < 16) :
     (Op.str s).bytes = (0xC0 + s.length) :: s := by
-  simp [Op.bytes, strHeader, strSliceLen, h, tvBytes, tvTail]
+  simp [Op.bytes, strHeader, h, tvBytes, tvTail, tvNibble]
 
 theorem strBytes_mid (s : Str) (h : 16 ≤ s.length) (h' : s.length < 4096) :
     (Op.str s).bytes = (0xD0 + s.length / 256) :: s.length % 256 :: s := by
   have h1 : ¬ s.length < 16 := by omega
-  have h2 : s.length % 4096 = s.length := Nat.mod_eq_of_lt h'
-  simp [Op.bytes, strHeader, strSliceLen, h1, h2, tvBytes, tvTail]
+  simp [Op.bytes, strHeader, h1, h', tvBytes, tvTail, tvNibble]
   omega
+
+theorem strBytes_long (s : Str) (h : 4096 ≤ s.length) :
+    (Op.str s).bytes = 0xE0 :: (lenBytes s.length ++ s) := by
+  have h1 : ¬ s.length < 16 := by omega
+  have h2 : ¬ s.length < 4096 := by omega
+  simp [Op.bytes, strHeader, h1, h2, tvBytes, tvTail, tvNibble, lenBytes]
 
 theorem readStrPayload_exact (s rest : Str) (hu : validUtf8 s = true) (t n : Nat) (p : Option Site) :
     readStrPayload s.length ⟨s ++ rest, true, t, n, p⟩ = (s, ⟨rest, true, t, n, p⟩) := by
@@ -88,9 +134,16 @@ theorem readStrPayload_exact (s rest : Str) (hu : validUtf8 s = true) (t n : Nat
   intro h
   omega
 
-def strTid (s : Str) : Nat := if s.length < 16 then 0xC0 else 0xD0
+def strTid (s : Str) : Nat := if s.length < 16 then 0xC0 else if s.length < 4096 then 0xD0 else 0xE0
 
-theorem rts_str (s : Str) (h : s.length < 4096) (hu : validUtf8 s = true) (rest : List Nat) (t n : Nat)
+theorem strTid_cases (s : Str) : strTid s = 0xC0 ∨ strTid s = 0xD0 ∨ strTid s = 0xE0 := by
+  unfold strTid; split
+  · exact Or.inl rfl
+  · split
+    · exact Or.inr (Or.inl rfl)
+    · exact Or.inr (Or.inr rfl)
+
+theorem rts_str (s : Str) (h : s.length < 2 ^ 64) (hu : validUtf8 s = true) (rest : List Nat) (t n : Nat)
     (p : Option Site) :
     readTypeAndSize ⟨(Op.str s).bytes ++ rest, true, t, n, p⟩ = (s, ⟨rest, true, strTid s, 0, p⟩) := by
   by_cases hs : s.length < 16
@@ -100,27 +153,42 @@ theorem rts_str (s : Str) (h : s.length < 4096) (hu : validUtf8 s = true) (rest 
     simp only [readTypeAndSize, if_true, hhi, hlo, List.cons_append]
     rw [readStrPayload_exact s rest hu]
     simp [strTid, hs]
-  · rw [strBytes_mid s (by omega) h]
-    have hhi : (0xD0 + s.length / 256) / 16 * 16 = 0xD0 := by omega
-    have hlo : (0xD0 + s.length / 256) % 16 = s.length / 256 := by omega
-    have hl : s.length / 256 * 256 + s.length % 256 = s.length := by omega
-    simp only [readTypeAndSize, if_true, hhi, hlo, List.cons_append]
-    simp only [hl]
-    rw [readStrPayload_exact s rest hu]
-    simp [strTid, hs]
+  · by_cases hm : s.length < 4096
+    · rw [strBytes_mid s (by omega) hm]
+      have hhi : (0xD0 + s.length / 256) / 16 * 16 = 0xD0 := by omega
+      have hlo : (0xD0 + s.length / 256) % 16 = s.length / 256 := by omega
+      have hl : s.length / 256 * 256 + s.length % 256 = s.length := by omega
+      simp only [readTypeAndSize, if_true, hhi, hlo, List.cons_append]
+      simp only [hl]
+      rw [readStrPayload_exact s rest hu]
+      simp [strTid, hs, hm]
+    · rw [strBytes_long s (by omega)]
+      have hlb : (lenBytes s.length).length = 8 := rfl
+      have hm8 := readMore_append (lenBytes s.length) (s ++ rest) 0xE0 0 p
+      rw [hlb, lenBytes_val s.length h] at hm8
+      simp only [readTypeAndSize, if_true, List.cons_append, List.append_assoc]
+      have e1 : (0xE0 : Nat) / 16 * 16 = 0xE0 := by decide
+      simp only [e1]
+      simp only [show ¬ ((0xE0 : Nat) = 0x10) by decide, show ¬ (0x30 ≤ (0xE0 : Nat) ∧ (0xE0 : Nat) ≤ 0xB0) by decide,
+        show ¬ ((0xE0 : Nat) = 0xC0) by decide, show ¬ ((0xE0 : Nat) = 0xD0) by decide, if_false]
+      simp only [readLongStr]
+      rw [hm8]
+      simp only [longStrPayload, if_true]
+      rw [readStrPayload_exact s rest hu]
+      simp [strTid, hs, hm]
 
-/-- `read_string` on the bytes of `write_str(s)`, `|s| < 4096`, followed by anything -/
-theorem readString_roundtrip (s : Str) (h : s.length < 4096) (hu : validUtf8 s = true) (rest : List Nat)
+/-- `read_string` on the bytes of `write_str(s)`, any length, followed by anything -/
+theorem readString_roundtrip (s : Str) (h : s.length < 2 ^ 64) (hu : validUtf8 s = true) (rest : List Nat)
     (t n : Nat) (p : Option Site) :
     readStringS ⟨(Op.str s).bytes ++ rest, true, t, n, p⟩ = (s, ⟨rest, true, strTid s, 0, p⟩) := by
   simp only [readStringS, rts_str s h hu rest t n p]
-  by_cases hs : s.length < 16 <;> simp [strTid, hs]
+  rcases strTid_cases s with e | e | e <;> simp [e]
 
-theorem readOptStr_some (s : Str) (h : s.length < 4096) (hu : validUtf8 s = true) (rest : List Nat)
+theorem readOptStr_some (s : Str) (h : s.length < 2 ^ 64) (hu : validUtf8 s = true) (rest : List Nat)
     (t n : Nat) (p : Option Site) :
     readOptStrS ⟨(optStrOp (some s)).bytes ++ rest, true, t, n, p⟩ = (some s, ⟨rest, true, strTid s, 0, p⟩) := by
   simp only [readOptStrS, optStrOp, if_true, rts_str s h hu rest t n p]
-  by_cases hs : s.length < 16 <;> simp [strTid, hs]
+  rcases strTid_cases s with e | e | e <;> simp [e]
 
 theorem readOptStr_none (rest : List Nat) (t n : Nat) (p : Option Site) :
     readOptStrS ⟨(optStrOp none).bytes ++ rest, true, t, n, p⟩ = (none, ⟨rest, true, 0x10, n, p⟩) := by
